@@ -526,7 +526,7 @@ fn for_each_forest(trees: &[Vec<Node>], n: usize, f: &(dyn Fn(&Graph, &mut Acc) 
                 fn rec(trees: &[Vec<Node>], sizes: &[usize], slots: &mut Vec<Node>, nb: usize, f: &(dyn Fn(&Graph, &mut Acc) + Sync), acc: &mut Acc, count: &mut u64) {
                     if slots.len() == sizes.len() {
                         for clip in [false, true] {
-                            let g = Graph { bases: slots[..nb].to_vec(), layers: slots[nb..].to_vec(), clip, var_store: false, v0: None, var_map: None, store_empty: false, clip_var: false };
+                            let g = Graph { bases: slots[..nb].to_vec(), layers: slots[nb..].to_vec(), clip, var_store: false, v0: None, var_map: None, store_empty: false, clip_var: false, store_shape: None };
                             f(&g, acc);
                             *count += 1;
                         }
@@ -588,7 +588,7 @@ fn substitutions(n: &Node) -> Vec<(Node, bool)> {
 
 fn chain_graph(kind: &str, depth: usize) -> Graph {
     let solid = || Node::Fill(Fill::Solid);
-    let mut g = Graph { bases: vec![], layers: vec![], clip: false, var_store: false, v0: None, var_map: None, store_empty: false, clip_var: false };
+    let mut g = Graph { bases: vec![], layers: vec![], clip: false, var_store: false, v0: None, var_map: None, store_empty: false, clip_var: false, store_shape: None };
     match kind {
         "ColrLayers" => {
             g.bases.push(Node::ColrLayers(0, 1));
@@ -1125,7 +1125,7 @@ fn body(run: &Run, replay: Option<&Value>) {
     let graphs_a = for_each_forest(&trees, n, &|g, acc| judge_all_modes(run, g, &coords0, acc), run, "A");
     run.count("A.graphs", graphs_a);
     eprintln!("[c13] A done at {:.1}s: {} graphs", run.elapsed(), graphs_a);
-    run.sample(json!({"family":"A","example": Graph{bases:vec![Node::Unary(Un::Glyph, Box::new(Node::ColrLayers(0,2)))], layers: vec![Node::Fill(Fill::Solid), Node::ColrLayers(0,1)], clip:true, var_store:false, v0: None, var_map: None, store_empty: false, clip_var: false}.to_json()}));
+    run.sample(json!({"family":"A","example": Graph{bases:vec![Node::Unary(Un::Glyph, Box::new(Node::ColrLayers(0,2)))], layers: vec![Node::Fill(Fill::Solid), Node::ColrLayers(0,1)], clip:true, var_store:false, v0: None, var_map: None, store_empty: false, clip_var: false, store_shape: None}.to_json()}));
 
     // G: multi-kind products: every forest in which EACH node ranges over the full alphabet (all fills
     // incl. variable and degenerate ones, all 21 unary kinds, ColrGlyph x3, ColrLayers x12, Composite).
@@ -1276,7 +1276,7 @@ fn family_glyph_transform_chains(run: &Run) {
                     if let Some(b2) = base2 {
                         bases.push(b2.clone());
                     }
-                    let mut g = Graph { bases, layers: layers.clone(), clip: false, var_store: false, v0: None, var_map: None, store_empty: false, clip_var: false };
+                    let mut g = Graph { bases, layers: layers.clone(), clip: false, var_store: false, v0: None, var_map: None, store_empty: false, clip_var: false, store_shape: None };
                     graphs += 1;
                     let before = acc.ok;
                     if uses_var(&g.bases[0]) {
@@ -1468,7 +1468,7 @@ fn truncation_table(fmt: u8, wrapped: bool, var_store: bool) -> Result<(Vec<u8>,
     if let Some(b2) = base2 {
         bases.push(b2);
     }
-    let g = Graph { bases, layers, clip: false, var_store, v0: None, var_map: None, store_empty: false, clip_var: false };
+    let g = Graph { bases, layers, clip: false, var_store, v0: None, var_map: None, store_empty: false, clip_var: false, store_shape: None };
     let bytes = write_fonts::dump_table(&build_colr(&g)).map_err(|e| format!("{e:?}"))?;
     let blist = be32(&bytes, 14);
     // record 0 of the BaseGlyphList is glyph 1: glyph id u16, paint offset u32
@@ -1593,12 +1593,34 @@ fn family_var_index_map(run: &Run) {
         let mut acc = Acc::new();
         for (var_store, store_empty) in stores {
             let (root, clip_var) = &roots[*r];
-            let g = Graph { bases: vec![root.clone()], layers: vec![], clip: *clip_var, var_store, v0: None, var_map: maps[*mi], store_empty, clip_var: *clip_var };
+            let g = Graph { bases: vec![root.clone()], layers: vec![], clip: *clip_var, var_store, v0: None, var_map: maps[*mi], store_empty, clip_var: *clip_var, store_shape: None };
             graphs.fetch_add(1, Ordering::Relaxed);
             judge_all_modes(run, &g, &coords, &mut acc);
         }
         flush(run, acc, "M");
     });
+    // hand-shaped stores: region list axis count 0 / 1 / 2 (the location has one coordinate) x 0-2 regions x
+    // region indices in and out of range, with and without a VarIndexMap
+    let mut shapes = vec![];
+    for axis_count in 0..=2u8 {
+        for region_count in 0..=2u8 {
+            for pattern in 0..4u8 {
+                shapes.push((axis_count, region_count, pattern));
+            }
+        }
+    }
+    let jobs2: Vec<(usize, usize)> = (0..roots.len()).flat_map(|r| (0..shapes.len()).map(move |s| (r, s))).collect();
+    jobs2.par_iter().for_each(|(r, si)| {
+        let mut acc = Acc::new();
+        for var_map in [None, Some((12u16, 1u8, 4u8)), Some((0u16, 2u8, 8u8))] {
+            let (root, clip_var) = &roots[*r];
+            let g = Graph { bases: vec![root.clone()], layers: vec![], clip: *clip_var, var_store: true, v0: None, var_map, store_empty: false, clip_var: *clip_var, store_shape: Some(shapes[*si]) };
+            graphs.fetch_add(1, Ordering::Relaxed);
+            judge_all_modes(run, &g, &coords, &mut acc);
+        }
+        flush(run, acc, "M");
+    });
+    run.bound("M.store_shapes", json!({"region_list_axis_count": [0, 1, 2], "region_count": [0, 1, 2], "item_variation_data_region_indexes": [[0], [1], [5], [0, 1]], "var_index_map": ["absent", "12 entries", "0 entries"], "location_coordinates": 1}));
     run.count("M.graphs", graphs.load(Ordering::Relaxed));
 }
 
@@ -1630,7 +1652,7 @@ fn family_gradients(run: &Run) {
                 Node::Unary(Un::Translate, Box::new(leaf.clone())),
                 Node::Unary(Un::Glyph, Box::new(Node::Unary(Un::Scale, Box::new(leaf.clone())))),
             ] {
-                let g = Graph { bases: vec![root], layers: vec![], clip: false, var_store: false, v0: None, var_map: None, store_empty: false, clip_var: false };
+                let g = Graph { bases: vec![root], layers: vec![], clip: false, var_store: false, v0: None, var_map: None, store_empty: false, clip_var: false, store_shape: None };
                 judge_all_modes(run, &g, &coords0, &mut acc);
             }
         }
@@ -1650,7 +1672,7 @@ fn family_mixed(run: &Run) {
             for first in 0..=2u16 {
                 for num in 0..=3u16 {
                     for nl in 0..=1usize {
-                        graphs.push(Graph { bases: vec![t.clone()], layers: vec![Node::Fill(Fill::Solid); nl], clip: false, var_store: false, v0: Some((first, num, nrec)), var_map: None, store_empty: false, clip_var: false });
+                        graphs.push(Graph { bases: vec![t.clone()], layers: vec![Node::Fill(Fill::Solid); nl], clip: false, var_store: false, v0: Some((first, num, nrec)), var_map: None, store_empty: false, clip_var: false, store_shape: None });
                     }
                 }
             }
